@@ -130,10 +130,13 @@ def _option_paths(body, opt_vars, f_in, stop_at, functions=None, formals=()):
         it, rest = items[0], items[1:]
         if isinstance(it, Command):
             if it is stop_at:
-                v = None
+                # the option words of the command line: every options variable of COMMAND, expanded in the order written
+                v = []
                 for ov in opt_vars:
-                    if env.get(ov) is not None:
-                        v = env[ov]
+                    if env.get(ov) is None:
+                        v = None
+                        break
+                    v.extend(env[ov])
                 results.append((isdir, trail, v))
                 return
             if it.name in functions and depth < 3:
@@ -334,8 +337,14 @@ def run(rep: Report, repo: Repo, tier: str) -> None:
         extra = [t for t in val if t not in ("-r", "--recursive", "${ARGN}")]
         rep.check(not extra, "C19-R4", where, f"{label}: no other option", f"the options contain {extra}: CMinx receives arguments the "
                   "caller did not pass")
-    rep.check(len(argn_sites) >= 1, "C19-R4", where, "ARGN appended to the options",
-              "extra arguments are not forwarded to CMinx", witness="cminx_gen_rst(dir out -p prefix)")
+    no_extra = re.compile(r"NOT\((\$\{ARGC\} GREATER 2|ARGC GREATER 2|\$\{ARGC\} GREATER_EQUAL 3)\)")
+    for isdir, trail, val in paths:
+        if val is None or any(no_extra.fullmatch(t) for t in trail):
+            continue                # without extra arguments ${ARGN} expands to nothing: present or not is the same command line
+        n_argn = sum(1 for t in val if t == "${ARGN}")
+        rep.check(n_argn == 1, "C19-R4", where, f"input is a {'directory' if isdir else 'file'}{', ' + ' & '.join(trail) if trail else ''}: ARGN forwarded once",
+                  "extra arguments are not forwarded to CMinx" if n_argn == 0 else "the extra arguments are passed more than once",
+                  witness="cminx_gen_rst(dir out -p prefix)")
     for c, anc, v in argn_sites:
         ok_val = v.text in ("${ARGN}",)
         rep.check(ok_val, "C19-R4", where, c.text()[:80], f"only part of the extra arguments is forwarded ({v.text})",
@@ -344,8 +353,10 @@ def run(rep: Report, repo: Repo, tier: str) -> None:
         if anc:
             head = anc[0][0].head
             t = " ".join(head.words())
-            okg = len(anc) == 1 and anc[0][1] == "body" and re.fullmatch(r"\$\{ARGC\} GREATER 2|ARGC GREATER 2|ARGN|\$\{ARGC\} GREATER_EQUAL 3|DEFINED ARGN", t) is not None
-            rep.check(okg, "C19-R4", where, head.text(), "ARGN is forwarded only under a condition other than 'extra arguments exist'")
+            okg = len(anc) == 1 and anc[0][1] == "body" and re.fullmatch(r"\$\{ARGC\} GREATER 2|ARGC GREATER 2|\$\{ARGC\} GREATER_EQUAL 3|DEFINED ARGN", t) is not None
+            rep.check(okg, "C19-R4", where, head.text(), "ARGN is forwarded only under a condition other than 'extra arguments exist' "
+                      "(if(ARGN) evaluates the joined list as a boolean: false for 0/OFF/N and for a list ending in -NOTFOUND)",
+                      witness='cminx_gen_rst(dir out -s "${SETTINGS-NOTFOUND}")')
     # no early return / other side effects
     for c, anc in items:
         if c.name in ("return", "file", "configure_file") or (c.name == "execute_process" and (c, anc) not in eps):
